@@ -321,7 +321,14 @@ def run_batch(pid: str, tier: str, base_seed: int, workers: int | None = None,
                             p.kill()
                         except Exception:
                             pass
-                    total["harness_errors"].append({"message": f"no worker made progress for {stall_cap}s; pool killed"})
+                    if getattr(mod, "WALL_TIMEOUT", "classify") == "undecided":
+                        # checks whose runs depend on hundreds of real child processes: a worker blocked in a system call
+                        # (a child that never answers) is not interruptible from Python; the remaining runs are not
+                        # executed and nothing is concluded from them
+                        total["probes"]["stalled_pool_undecided"] += 1
+                        stopped_early = True
+                    else:
+                        total["harness_errors"].append({"message": f"no worker made progress for {stall_cap}s; pool killed"})
                     break
                 continue
             last_progress = time.monotonic()
